@@ -47,6 +47,10 @@ FIXES = [
     ('19-C10-iterfit-early-returns-mask.patch', 'C10', 'C10.MASK-EXITS'),
     ('20-C18-munu-arcsin-clamped.patch', 'C18', 'C18.ASIN-CLIP'),
     ('21-C19-refraction-zero-d-input.patch', 'C19', 'C19.SCALAR'),
+    ('22-C06-sdss_objid-64-bit-shifts.patch', 'C06', 'C06.WIDE'),
+    ('23-C08-everyn-from-sorted-abscissae.patch', 'C08', 'C08.EVERYN'),
+    ('24-C13-flegendre-floating-basis.patch', 'C13', 'C13.FLOAT-BASIS'),
+    ('25-C08-bspline-floating-work-arrays.patch', 'C08', 'C08.FLOAT-WORK'),
 ]
 
 
